@@ -31,6 +31,9 @@ CONFIGS = [
     {'kind': 'dir', 'serialized': False, 'protocol': None},
     {'kind': 'dir', 'serialized': True, 'protocol': None, 'compression': 3},
     {'kind': 'sql', 'memory': False},
+    {'kind': 'dir', 'serialized': True, 'protocol': None, 'memmode': 'r+'},
+    {'kind': 'dir', 'serialized': True, 'protocol': None, 'fast': True},
+    {'kind': 'file', 'serialized': True, 'protocol': 0},
 ]
 
 
@@ -103,6 +106,8 @@ def child_main(path):
             a.pop(dec(op[1]))
         elif o == 'popitem':
             a.popitem()
+        elif o == 'popkeys':
+            a.popkeys([dec(k) for k in op[1]])
         elif o == 'clear':
             a.clear()
         elif o == 'dump':
@@ -267,6 +272,8 @@ def touched_keys(op):
         return [json.dumps(op[1], sort_keys=True)]
     if o in ('update', 'dump'):
         return [json.dumps(k, sort_keys=True) for k, _ in op[1]]
+    if o == 'popkeys':
+        return [json.dumps(k, sort_keys=True) for k in op[1]]
     return None   # clear / popitem / open: every key may be touched (clear, popitem) or none (open)
 
 
@@ -286,7 +293,8 @@ def gen_case(rng, prop='C13'):
     newv = lambda: rng.choice([rng.randrange(1000, 2000), 'new%d' % rng.randrange(100), big + 'N'])
     present = [k for k, _ in s0]
     absent = [k for k in keyspace if k not in present]
-    kinds = ['set-new', 'set-over', 'update', 'del', 'pop', 'clear', 'dump', 'open', 'open-cached', 'setdefault']
+    kinds = ['set-new', 'set-over', 'update', 'del', 'pop', 'clear', 'dump', 'open', 'open-cached', 'setdefault',
+             'popitem', 'popkeys']
     while True:
         kd = rng.choice(kinds)
         if kd == 'set-new' and absent:
@@ -311,6 +319,10 @@ def gen_case(rng, prop='C13'):
             op = ['open', 1]
         elif kd == 'setdefault' and absent:
             op = ['setdefault', absent[0], newv()]
+        elif kd == 'popitem' and present:
+            op = ['popitem']
+        elif kd == 'popkeys' and len(present) >= 2:
+            op = ['popkeys', rng.sample(present, 2)]
         else:
             continue
         break
@@ -391,6 +403,8 @@ def judge(case, s0_rep, s1_rep, rep, where, killed_event, log=()):
                     allowed.append(('present', S1[k]))
                 else:
                     allowed.append(('absent', None))
+                if case['op'][0] == 'popitem':
+                    allowed.append(('absent', None))     # which item is popped may differ from the dry run's choice
             state = ('present', got[k]) if k in got else ('absent', None)
             if state not in allowed:
                 mech = []
@@ -399,6 +413,10 @@ def judge(case, s0_rep, s1_rep, rep, where, killed_event, log=()):
                     mech = ['dir-overwrite-not-atomic']
                 bad('key-in-neither-old-nor-new-state' if touched else 'untouched-key-changed',
                     '%s view: key %s is %s, allowed %s' % (view, k, _short(state), [_short(a) for a in allowed]), mech)
+    if case['op'][0] == 'popitem' and 'asdict' in rep:
+        gone = [k for k in S0 if k not in as_map(rep['asdict'])]
+        if len(gone) > 1:
+            bad('popitem-removed-several', 'popitem: keys %s are gone' % gone[:4])
     if 'keys' in rep and 'asdict' in rep and sorted(rep['keys']) != sorted(k for k, _ in rep['asdict']):
         bad('keys-and-contents-disagree', 'keys() %s vs contents %s' % (rep['keys'][:5], [k for k, _ in rep['asdict']][:5]))
     if 'len' in rep and 'asdict' in rep and rep['len'] != len(rep['asdict']):
